@@ -1,6 +1,7 @@
 package c01
 
 import (
+	"os"
 	"testing"
 	"time"
 
@@ -11,7 +12,7 @@ import (
 func bootCase(t *testing.T, out *vio.Out, ci int, c tcase, ei int, tau time.Duration) {
 	e := embs[ei]
 	res := runOnce(t, realCfg(c.Cfg, e, tau), e.a*c.Cfg.Drift, tau, 1,
-		errClocks(c.Cfg.Nref), errClocks(c.Cfg.Npeer))
+		errClocks(c.Cfg.Nref), errClocks(c.Cfg.Npeer), nil)
 	if res.panicked && res.rec.touched {
 		t.Fatalf("case %d: sync.Run panicked inside the loop: %s", ci, res.msg)
 	}
@@ -27,18 +28,40 @@ func runCase(t *testing.T, out *vio.Out, ci int, c tcase, ei int) (int, int) {
 	refs := scripts(c.Cfg.Nref, c.Rounds, false, e, cfg.SyncTimeout, tau)
 	peers := scripts(c.Cfg.Npeer, c.Rounds, true, e, cfg.SyncTimeout, tau)
 	driftPer := e.a * c.Cfg.Drift
-	res := runOnce(t, cfg, driftPer, tau, len(c.Rounds), refs, peers)
+	d := driftPer * c.Cfg.Interval // clk.Drift(cfg.SyncInterval)
+	boot := rec{K: "boot", Case: ci, Emb: ei, Tau: int64(tau), Cfg: c.Cfg, RawOK: true, Exact: true}
+	res := runOnce(t, cfg, driftPer, tau, len(c.Rounds), refs, peers, func(done []observed, pending observed) {
+		// the scripted rounds did not complete: everything seen so far, then the
+		// pending round (no Sleep call was reached) flagged as hung
+		out.Emit(boot)
+		emitRounds(out, ci, c, ei, d, done)
+		h := rec{K: "round", Case: ci, Emb: ei, Tau: int64(tau), Cfg: c.Cfg, Rnd: len(done) + 1,
+			Ndo: len(pending.dos), RawOK: true, Exact: true, Hung: true}
+		out.Emit(h)
+		out.Close()
+		os.Exit(exitHung)
+	})
 	if res.panicked && res.rec.touched {
 		t.Fatalf("case %d: sync.Run panicked inside the loop: %s", ci, res.msg)
 	}
-	out.Emit(rec{K: "boot", Case: ci, Emb: ei, Tau: int64(tau), Cfg: c.Cfg, Refused: res.panicked,
-		RawOK: true, Exact: true})
-	n, nx := 1, 0
+	boot.Refused = res.panicked
+	out.Emit(boot)
 	if res.panicked {
-		return n, nx
+		return 1, 0
 	}
-	d := driftPer * c.Cfg.Interval // clk.Drift(cfg.SyncInterval)
-	for ri, ob := range res.rec.rounds {
+	n, nx := emitRounds(out, ci, c, ei, d, res.rec.rounds)
+	return n + 1, nx
+}
+
+// exitHung is the driver's exit status after a behaviour that did not finish.
+const exitHung = 3
+
+// emitRounds writes one record per observed clk.Sleep call.
+func emitRounds(out *vio.Out, ci int, c tcase, ei int, d int64, rounds []observed) (int, int) {
+	e := embs[ei]
+	tau := time.Millisecond
+	n, nx := 0, 0
+	for ri, ob := range rounds {
 		r := rec{K: "round", Case: ci, Emb: ei, Tau: int64(tau), Cfg: c.Cfg, Rnd: ri + 1, Ndo: len(ob.dos)}
 		r.RawOK = true
 		for _, x := range ob.dos {
